@@ -151,6 +151,17 @@ fn structured_frames() -> Vec<(String, Vec<u8>)> {
         w.u32le(SID).u8(0).u8(stream).u16le(4 + 18).u8(share::PDUTYPE2_PLAY_SOUND).u8(ctype).u16le(clen).bytes(&[1, 2, 3, 4]);
         v.push((format!("share data stream {} compression {:#x} compressedLength {}", stream, ctype, clen), sdi(&share::share_control(share::PDUTYPE_DATA, 1002, &w.0))));
     }
+    // the same for every data PDU the client parses (and two it does not), with its honest payload: compression type byte x
+    // compressedLength (the two fields together decide how much of the PDU a decompressing reader would look at)
+    for (t2, payload) in [(0x1Fu8, vec![1u8, 0, 0xEA, 0x03]), (0x14, vec![4, 0, 0, 0, 0, 0, 0, 0]), (0x28, vec![0, 0, 0, 0, 3, 0, 4, 0]), (0x2F, vec![0, 0, 0, 0]), (0x27, vec![0, 0, 0, 0, 3, 0, 50, 0]), (0x26, vec![2, 0, 0, 0]), (0x02, vec![1, 0, 0, 0])] {
+        for ctype in [0x20u8, 0x21, 0x61, 0xA0, 0xFF] {
+            for clen in [0u16, 4, 17, 18, 19, 22, 23, 26, 27, 100, 0x7FFF, 0x8000, 0xFFFF] {
+                let mut w = W::new();
+                w.u32le(SID).u8(0).u8(1).u16le(payload.len() as u16 + 18).u8(t2).u8(ctype).u16le(clen).bytes(&payload);
+                v.push((format!("share data pduType2 {:#x} compression {:#x} compressedLength {}", t2, ctype, clen), sdi(&share::share_control(share::PDUTYPE_DATA, 1002, &w.0))));
+            }
+        }
+    }
     // demand-active: one capability of every type x body length; count one more / one less than present; no capability
     for ty in (1..=0x1Eu16).chain([0u16, 0x1F, 0xFF, 0xFFFF]) {
         for blen in [0usize, 4, 8, 84] {
@@ -251,8 +262,8 @@ fn aftermath(l: &mut fsm::Live, state: u8) {
 }
 
 /// long-lived sessions: totality is about every state the client can be in, and some states are only reached late
-const N_LONG: u64 = 7;
-const LONG_NAMES: [&str; 7] = [
+const N_LONG: u64 = 8;
+const LONG_NAMES: [&str; 8] = [
     "400 frames of PDUs the active client ignores (unknown data PDUs, Set Error Info, other share-control types, a data PDU cut short), one per frame",
     "one frame packing 400, then one packing 1400 Set Error Info PDUs",
     "re-activations whose demand-active announces fewer, other, no, then all capability sets",
@@ -260,6 +271,7 @@ const LONG_NAMES: [&str; 7] = [
     "70 000 send-data indications on a channel that was never joined and from another initiator",
     "300 re-activations rotating four capability lists",
     "2 000 fast-path frames with unknown update codes / empty payloads between bitmap updates",
+    "re-activations (same / fewer / more capability sets) during which the transport refuses one write of the client's answer, at every position of the burst and with three error kinds; the server then sends its demand-active again and completes the activation",
 ];
 
 fn run_long(k: u64) -> Outcome {
@@ -342,6 +354,36 @@ fn run_long(k: u64) -> Outcome {
             let lists = [windows_caps.clone(), share::minimal_caps(), windows_caps.iter().take(7).cloned().collect::<Vec<_>>(), vec![]];
             for i in 0..300 {
                 activation(&mut l, &lists[i % 4]);
+            }
+        }
+        7 => {
+            let fewer: Vec<share::CapSet> = windows_caps.iter().take(3).cloned().collect();
+            let lists = [windows_caps.clone(), fewer, share::minimal_caps(), vec![], windows_caps.clone()];
+            let mut round = 0usize;
+            for caps in lists.iter() {
+                for fail_after in [0usize, 1, 20, 60, 120, 200, 300, 400, 450, 500] {
+                    feed(&mut l, &sdi(&share::deactivate_all(SID, 1002)));
+                    {
+                        // one refused write, `fail_after` bytes into whatever the client writes next
+                        let mut sh = l.sh.borrow_mut();
+                        let pos = sh.from_client.len() + fail_after;
+                        sh.write_seq_pos = 0;
+                        sh.write_plan = crate::memlink::WritePlan::ErrOnceAt { pos, kind: [std::io::ErrorKind::WouldBlock, std::io::ErrorKind::BrokenPipe, std::io::ErrorKind::Other][round % 3] };
+                    }
+                    let da = sdi(&share::demand_active(SID, 1002, b"RDP\0", caps, 0));
+                    feed(&mut l, &da);
+                    // the server got no (complete) answer: it asks again, then plays the rest
+                    feed(&mut l, &da);
+                    for ev in [2usize, 3, 4, 6] {
+                        feed(&mut l, &fsm::event_frame(ev, SID));
+                    }
+                    l.sh.borrow_mut().write_plan = crate::memlink::WritePlan::All;
+                    let _ = l.client.try_write(rdp::core::event::RdpEvent::Pointer(rdp::core::event::PointerEvent { x: 2, y: 3, button: rdp::core::event::PointerButton::None, down: false }));
+                    feed(&mut l, &fsm::event_frame(10, SID));
+                    round += 1;
+                }
+                // and a clean re-activation in between
+                activation(&mut l, caps);
             }
         }
         _ => {
@@ -518,7 +560,7 @@ impl Prop for C06 {
         d
     }
     fn rule(&self) -> String {
-        "cases = (client state 0..5 reached by the honest activation prefix of a client configured, in rotation, 800x600 / 65535x65535 with a 30-byte name / 0x0 without a name / 65533x1, one server frame with <=1 deviation (<=2 thorough)). PDU kinds: demand-active (Windows capability list and minimal), deactivate-all, synchronize, control, font-map, set-error-info, an unparsed data PDU, two share PDUs in one frame, a confirm-active sent by the server, fast-path bitmap (raw + compressed-with-header rectangles), fast-path pointer/synchronize updates, unknown fast-path codes. Deviations: every byte offset x value set (12 boundary values + honest+-1; all 256 in thorough), every offset as 16/32-bit field in both byte orders x boundary set, every truncation, extensions {+1,+2,+1500}; [inner-*] every byte string of length <=2 (<=3 in thorough for the Data state, and state 0 at the share-control entry) and every string of length 3..4 (..6 in thorough) over 8 boundary bytes at the MCS, share-control (states 0,1,5 in quick, all six in thorough) and fast-path parser entries, and as raw unframed bytes at the frame reader; [pairs, thorough] all pairs of {byte:=00, byte:=FF, truncate} over all offsets, in states 0 and 5. [structured] well-formed frames with consistent length fields in each of the six states: every share-control type x version bits x body length, every pduType2 0..0x40 x payload length 0..12, every prefix of the honest body of each data PDU the client parses, TPKT frames whose body is 1..6 bytes long (every X.224 code byte behind 4 length indicators), compression / stream bytes, a demand-active carrying a capability of every type 0..0x1F, 0xFF, 0xFFFF x body length, source descriptors of 0..300 bytes in ASCII / Latin-1 / 2-3-4-byte UTF-8 at every alignment / invalid UTF-8 / UTF-16, capability counts off by +-1 / +100, no and 2000 capabilities, every MCS domain-PDU choice 0..63, every disconnect reason, indications on other channels / from other users, every fast-path update code x fragmentation x compression bit x body length (also under the header's secure-checksum / encrypted flags), rectangle counts 0..0xFFFF against two present; [frame-pairs] every ordered pair of 10 well-formed share PDUs in one frame, in each of the six states. After the hostile frame an honest PDU is read to expose desynchronisation loops, then, whether the hostile frame was tolerated or refused, the server plays the rest of an honest activation from that state followed by fast-path output and a data PDU, with an input attempt after every step: neither a tolerated fault nor a refused one may blow up later. [long-lived] seven sessions on one active client: 400 frames of PDUs it ignores; frames packing 400 and 1400 PDUs; re-activations whose demand-active announces fewer / other / no / all capability sets; 100 000 indications on the user channel and 70 000 on a channel never joined, queued at once; 300 re-activations rotating four capability lists; 2 000 fast-path frames with unknown codes and empty payloads. Non-trivial: the frame differs from the honest one.".into()
+        "cases = (client state 0..5 reached by the honest activation prefix of a client configured, in rotation, 800x600 / 65535x65535 with a 30-byte name / 0x0 without a name / 65533x1, one server frame with <=1 deviation (<=2 thorough)). PDU kinds: demand-active (Windows capability list and minimal), deactivate-all, synchronize, control, font-map, set-error-info, an unparsed data PDU, two share PDUs in one frame, a confirm-active sent by the server, fast-path bitmap (raw + compressed-with-header rectangles), fast-path pointer/synchronize updates, unknown fast-path codes. Deviations: every byte offset x value set (12 boundary values + honest+-1; all 256 in thorough), every offset as 16/32-bit field in both byte orders x boundary set, every truncation, extensions {+1,+2,+1500}; [inner-*] every byte string of length <=2 (<=3 in thorough for the Data state, and state 0 at the share-control entry) and every string of length 3..4 (..6 in thorough) over 8 boundary bytes at the MCS, share-control (states 0,1,5 in quick, all six in thorough) and fast-path parser entries, and as raw unframed bytes at the frame reader; [pairs, thorough] all pairs of {byte:=00, byte:=FF, truncate} over all offsets, in states 0 and 5. [structured] well-formed frames with consistent length fields in each of the six states: every share-control type x version bits x body length, every pduType2 0..0x40 x payload length 0..12, every prefix of the honest body of each data PDU the client parses, TPKT frames whose body is 1..6 bytes long (every X.224 code byte behind 4 length indicators), compression / stream bytes (for every parsed data PDU: 5 compression-type bytes x 13 compressedLength values), a demand-active carrying a capability of every type 0..0x1F, 0xFF, 0xFFFF x body length, source descriptors of 0..300 bytes in ASCII / Latin-1 / 2-3-4-byte UTF-8 at every alignment / invalid UTF-8 / UTF-16, capability counts off by +-1 / +100, no and 2000 capabilities, every MCS domain-PDU choice 0..63, every disconnect reason, indications on other channels / from other users, every fast-path update code x fragmentation x compression bit x body length (also under the header's secure-checksum / encrypted flags), rectangle counts 0..0xFFFF against two present; [frame-pairs] every ordered pair of 10 well-formed share PDUs in one frame, in each of the six states. After the hostile frame an honest PDU is read to expose desynchronisation loops, then, whether the hostile frame was tolerated or refused, the server plays the rest of an honest activation from that state followed by fast-path output and a data PDU, with an input attempt after every step: neither a tolerated fault nor a refused one may blow up later. [long-lived] eight sessions on one active client: 400 frames of PDUs it ignores; frames packing 400 and 1400 PDUs; re-activations whose demand-active announces fewer / other / no / all capability sets; 100 000 indications on the user channel and 70 000 on a channel never joined, queued at once; 300 re-activations rotating four capability lists; 2 000 fast-path frames with unknown codes and empty payloads; re-activations during which the transport refuses one write of the client's answer (10 positions x 3 error kinds x 5 capability lists), the demand-active then sent again. Non-trivial: the frame differs from the honest one.".into()
     }
     fn assumptions(&self) -> Vec<String> {
         vec!["memory rule: single request > 1 MiB or peak > 16 MiB + 1024 x bytes received".into(), "the six states are reached through RdpClient::read on the raw stack (hooks H3/H4); TLS record handling is not part of this property".into()]
